@@ -63,3 +63,29 @@ PROPS["C02"] = dict(
                "11-letter alphabet and a grammar-directed stream on every run; trusted: Lean kernel, netip model, correspondence",
 )
 NOT_APPLICABLE.pop("C02", None)
+
+PROPS["C04"] = dict(
+    module="GolibsVerif.Theorems.C04", namespace="GolibsVerif.C04",
+    rule="addresses (random, single non-zero byte at every position, 4in6, bad lengths) encoded and decoded in four spellings; ARPA names from "
+         "a label grammar and near-canonical mutations of real PTR names (leading zeros, '+', 4/5 labels, 31/33 nibbles, two-char labels, "
+         "non-ASCII look-alikes); non-trivial = the name carries an .arpa suffix or the address is valid; distinct = distinct case line",
+    trusted=["Lean model of netip.ParseAddr (validated by std.parseaddr ops)", "idna.ToASCII as a parameter (oracle field)",
+             "constants arpaV4Suffix/arpaV6Suffix/arpaV6MaxLen regenerated from netutil on every run"],
+    assumptions=["net.IP.To4/To16, strconv.Itoa/FormatUint of a byte are modelled (ipTo4, ipTo16, itoa, hexDigit), sampled by the tie"],
+    level_text="Lean theorems about the model of reversed.go: encoder produces the canonical PTR name; decoder inverts it in any case and with "
+               "a trailing dot; whatever the decoder accepts is canonical; tie by differential correspondence on every run",
+    level_note="trusted: Lean kernel; correspondence (sampled); netip model; idna.ToASCII contract IDNA-1 where stated",
+)
+PROPS["C05"] = dict(
+    module="GolibsVerif.Theorems.C05", namespace="GolibsVerif.C05",
+    rule="all label sequences of length 0..3 (quick) / 0..5 (thorough) over {0,7,10,255,00,256,01,x,a,F,aa,1a} under both roots for "
+         "PrefixFromReversedAddr and ExtractReversedAddr, plus grammar-directed names (0..36 labels, case variants, look-alike roots, "
+         "non-ASCII) and the unexported helpers; non-trivial = the name has an ARPA root suffix; distinct = distinct case line",
+    trusted=["Lean model of netip.ParseAddr", "idna.ToASCII as a parameter (oracle field)", "strconv.ParseUint(s,10,8) modelled as parseUintDec"],
+    assumptions=["the independent Go decoder written from the property text (specArpaPrefix/specExtract) is the direct oracle"],
+    level_text="Lean theorems about the model of reversed.go's prefix decoders (totality for every input, masked result, agreement with the "
+               "label-level specification); tie by differential correspondence and bounded-exhaustive label sequences on every run",
+    level_note="trusted: Lean kernel; correspondence (sampled + bounded exhaustive); netip model; idna.ToASCII contracts IDNA-1/2 where stated",
+)
+NOT_APPLICABLE.pop("C04", None)
+NOT_APPLICABLE.pop("C05", None)
